@@ -212,8 +212,8 @@ def run(ck: Checker):
                 probs.append('the wrapper is recognised but not converted back to the original exception')
             for k in conv:
                 v = k.ast.value
-                if not (isinstance(v, ast.Call) and ((dotted(v.func) or '').endswith('_rebuild_exception') or norm_text(v).endswith('.exc')) or norm_text(v).endswith('.exc')):
-                    probs.append(f'the wrapper is converted with `{norm_text(v)[:50]}`, not with the rebuild helper pickling would use')
+                if not (isinstance(v, ast.Call) and (dotted(v.func) or '').endswith('_rebuild_exception')):
+                    probs.append(f'the wrapper is converted with `{norm_text(v)[:50]}`, not with the rebuild helper pickling would use: the server-side traceback text is not attached to the exception the caller gets')
                 elif isinstance(v, ast.Call) and [norm_text(a) for a in v.args] != [f'{res}.exc', f'{res}.tb']:
                     probs.append(f'the rebuild helper is called with {[norm_text(a) for a in v.args]}, not ({res}.exc, {res}.tb): type/args or the server-side traceback text would be lost')
     ck.ob('C14-4', f, rz[0].ast, not probs, '; '.join(sorted(set(probs))) if probs else 'both branches deliver the same payload kinds: the shortcut rebuilds the original exception (with its traceback text) exactly as unpickling does on the wire branch')
